@@ -229,7 +229,7 @@ func c15Script(stmts []string) *core.Viol {
 	whole := c15Feed([]string{text}, false)
 	// a script is a case when it is error-free fed one statement at a time (the reading that needs no look-ahead)
 	if one := c15Feed(stmts, true); one.errs != "" {
-		return &core.Viol{Class: "not-a-case", Case: cs}
+		return &core.Viol{Class: "not-a-case", Detail: one.errs, Case: cs}
 	}
 	n := len(stmts)
 	for mask := 0; mask < 1<<(n-1); mask++ {
@@ -283,7 +283,8 @@ var c15ScriptStmts = func() []string {
 }()
 
 func runC15(c *core.Ctx) {
-	token.Init()
+	// (no token.Init() here: resetting the interning table invalidates the token pointers the evaluator keeps, e.g.
+	// for unquote, and the scripts with macros would silently stop being cases)
 	opt := corpusOptFor(c)
 	opt.mutations = 0 // byte mutations of the examples add nothing here: complete accepted programs only
 	var prefixes int64
